@@ -1,3 +1,4 @@
+import Gocc.Model.ActionFold
 import Gocc.Driver.Proto
 import Gocc.Model.SemCheck
 import Gocc.Spec.SemWF
@@ -158,12 +159,12 @@ def showAct : Option Act → String
   | some (.reduce p) => s!"r{p}"
   | some .accept => "a"
 
-def showLRTab (a : Art) : String :=
+def showLRTabWith (f : PTables → PTables) (a : Art) : String :=
   match a.lr with
   | none => "nosyntax"
   | some (.error e) => if e == "refused" then "refused" else "panic"
   | some (.ok r) =>
-    let T := r.tables
+    let T := f r.tables
     let rows := (List.range T.nStates).map fun s =>
       let acts := (T.action[s]!.toList.map showAct)
       let gts := T.goto_[s]!.toList.map toString
@@ -171,6 +172,10 @@ def showLRTab (a : Art) : String :=
     let prods := (List.range T.prodLen.size).map fun p =>
       s!"{T.prodNT[p]!}:{T.prodLen[p]!}"
     s!"n={T.nStates} c={T.conflictStates} prods=[{" ".intercalate prods}] ; " ++ " ; ".intercalate rows
+
+def showLRTab (a : Art) : String := showLRTabWith id a
+/-- the tables a `-zip` build holds after its `init()` functions have run (Model/ActionFold `zipTables`) -/
+def showLRTabZip (a : Art) : String := showLRTabWith zipTables a
 
 def lexTablesOf (a : Art) (sets : Array LState) : LexTables :=
   let C : LexCtx := { prods := a.lexProds.toArray }
